@@ -553,7 +553,7 @@ fn run_case(mode: u8, cfg: &Cfg, conns: &[ConnScript], stop: Option<(u64, StopKi
         let ret: Arc<Mutex<Option<u64>>> = Arc::new(Mutex::new(None));
         let ads = Ads::default();
         let proxy = cfg.proxy.map(|(a1, a2)| ParseConfig { include_tlvs: false, allow_v1: a1, allow_v2: a2 });
-        let server = if mode == 0 {
+        let server = if mode == 0 || mode == 2 {
             let a = Arc::new(ads.clone());
             let limiter = cfg.lim.map(|(limit, d)| RateLimiter::<IpAddr>::new(Duration::from_secs(d), limit));
             let mut listener = Listener::new(a.clone(), a.clone(), a.clone(), a.clone(), a.clone(), a.clone())
@@ -564,7 +564,14 @@ fn run_case(mode: u8, cfg: &Cfg, conns: &[ConnScript], stop: Option<(u64, StopKi
                 .with_max_packet_length(cfg.max as i32)
                 .with_auth_cookie_expiry(cfg.expiry);
             let (tk, r2) = (token.clone(), ret.clone());
+            let relisten = mode == 2;
             tokio::task::spawn_local(async move {
+                if relisten {
+                    // a Listener that has been run and stopped once before (nothing was connected): the run that is
+                    // observed is its SECOND `listen`
+                    let once = CancellationToken::new(); once.cancel();
+                    let _ = listener.listen(("127.0.0.1", port), once).await;
+                }
                 let _ = listener.listen(("127.0.0.1", port), tk).await;
                 *r2.lock().unwrap() = Some(now_ms(t0));
             })
@@ -1041,9 +1048,39 @@ fn main() {
             }
             // connections that arrive before the stop keep their place; those scripted after it count as late
             let end = t.max(lt) + timeout_s * 1000 + 800;
-            let run = run_case(0, &cfg, &conns, Some((stop, StopKind::Token)), end);
+            // every sixth case on a Listener that was run and stopped once before
+            let mode = if i % 6 == 1 { st.hit("STOP.second_listen_of_the_same_listener"); 2 } else { 0 };
+            let run = run_case(mode, &cfg, &conns, Some((stop, StopKind::Token)), end);
             emit("STOP", 0, &cfg, &conns, Some((stop, StopKind::Token)), end, &run);
             st.hit(&format!("STOP.k={}", k)); st.hit(&format!("STOP.proxy={}", proxy_on)); ncase += 1;
+        }
+    }
+
+    // STOP with a rate limiter: a client that was turned away keeps its socket open (it never closes its side); the
+    // drain must not wait for it
+    if want("STOP") {
+        for i in 0..(2 * scale) {
+            let timeout_s = 5u64;
+            let proxy = if i % 2 == 1 { Some((true, true)) } else { None };
+            let cfg = Cfg { max: 10_000, expiry: 21_600, secret: None, timeout_s, lim: Some((1, 60)), proxy };
+            let src = rnd_src(&mut r, 8);
+            let mut conns = vec![];
+            let mut t = 50 + r.below(30);
+            for j in 0..3i64 {
+                let beh = if j == 0 { Beh::Status } else { Beh::Silent };
+                let mut c = plain(j + 1, 2, t, beh.clone(), if j == 0 { nat_of(&beh, 0) } else { None });
+                if proxy.is_some() { c.hdr = mk_hdr(&mut r, (j % 2) as u32, &src, 0); c.eff_ip = src.ip(); }
+                conns.push(c);
+                t += 150;
+            }
+            let stop = t + 203;
+            let mut c = plain(50, 5, stop + 150, Beh::Late, None);
+            if proxy.is_some() { let s2 = rnd_src(&mut r, 8); c.hdr = mk_hdr(&mut r, 0, &s2, 0); }
+            conns.push(c);
+            let end = stop + timeout_s * 1000 + 1500;
+            let run = run_case(0, &cfg, &conns, Some((stop, StopKind::Token)), end);
+            emit("STOP", 0, &cfg, &conns, Some((stop, StopKind::Token)), end, &run);
+            st.hit("STOP.rejected_client_lingers"); ncase += 1;
         }
     }
 
